@@ -403,7 +403,7 @@ def decode_cif_atoms(text: str) -> List[dict]:
 
 
 def st_tables(max_models=3, max_chains=3, max_residues=5, max_atoms=8, altlocs=True, clashes=False,
-              hetero=True, realistic_nucleotides=False, wide=False, modified=False):
+              hetero=True, realistic_nucleotides=False, wide=False, modified=False, shared_positions=False):
     """atom tables within PDB limits, built residue by residue"""
     from hypothesis import strategies as st
 
@@ -456,6 +456,15 @@ def st_tables(max_models=3, max_chains=3, max_residues=5, max_atoms=8, altlocs=T
                     names = draw(st.lists(st.sampled_from(ODD_NAMES + NUC_ATOMS["backbone"][:4]), min_size=k, max_size=k, unique=True))
                     record = draw(st.sampled_from(["HETATM", "ATOM"]))
                 residues.append((ch, num, icode, resname, record, names))
+                if shared_positions and kind in ("nuc", "mod") and draw(st.integers(0, 5)) == 0:
+                    # point microheterogeneity: the same position modelled as a second, differently named residue
+                    # (conformer A is one nucleotide, conformer B another)
+                    other = draw(st.sampled_from([b for b in "ACGU" if b != base]))
+                    pool2 = NUC_ATOMS["backbone"] + NUC_ATOMS[other]
+                    k2 = draw(st.integers(1, min(max_atoms, len(pool2))))
+                    names2 = draw(st.lists(st.sampled_from(pool2), min_size=k2, max_size=k2, unique=True))
+                    residues[-1] = residues[-1] + ("A",)
+                    residues.append((ch, num, icode, other, record, names2, "B"))
         atoms = []
         GRID = 40
         origin = draw(st.sampled_from([(0.0, 0.0, 0.0), (0.0, 0.0, 0.0), (-939.0, 12.0, 500.0), (930.0, -960.0, -30.0)]))
@@ -465,7 +474,7 @@ def st_tables(max_models=3, max_chains=3, max_residues=5, max_atoms=8, altlocs=T
             serial = draw(st.sampled_from([1, 1, 1, 7, 5000, 9990, 10000, 99000]))
             # every atom of a model sits in its own cell of a 1.5 A lattice (+-0.25 A offset):
             # no two atoms come closer than 1.0 A unless planted below
-            n_slots = sum(len(names) for (_, _, _, _, _, names) in residues) * 3
+            n_slots = sum(len(e[5]) for e in residues) * 3
             cells = draw(st.lists(st.integers(0, GRID ** 3 - 1), min_size=n_slots, max_size=n_slots, unique=True))
             cell_iter = iter(cells)
 
@@ -476,8 +485,10 @@ def st_tables(max_models=3, max_chains=3, max_residues=5, max_atoms=8, altlocs=T
                         round(origin[1] + (j - GRID // 2) * 1.5 + draw(off), 3),
                         round(origin[2] + (k - GRID // 2) * 1.5 + draw(off), 3))
 
-            for (ch, num, icode, resname, record, names) in residues:
-                use_alt = altlocs and draw(st.integers(0, 5)) == 0
+            for entry in residues:
+                (ch, num, icode, resname, record, names) = entry[:6]
+                conformer = entry[6] if len(entry) > 6 else None
+                use_alt = altlocs and conformer is None and draw(st.integers(0, 5)) == 0
                 for nm in names:
                     copies = [""]
                     if use_alt and draw(st.booleans()):
@@ -485,6 +496,9 @@ def st_tables(max_models=3, max_chains=3, max_residues=5, max_atoms=8, altlocs=T
                     occs = None
                     if len(copies) > 1:
                         occs = draw(st.lists(occ, min_size=len(copies), max_size=len(copies)))
+                    if conformer is not None:
+                        copies = [conformer]
+                        occs = [0.6 if conformer == "A" else 0.4]
                     for ci, alt in enumerate(copies):
                         el = element_of(nm)
                         charge = draw(st.sampled_from([0, 0, 0, 0, 1, -1, 2, -2, 3]))
